@@ -154,6 +154,17 @@ def apply_action(mod, act, env, lib):
         if lib == "np":
             return X()
         return X().rechunk(tuple(tuple(c) for c in act["chunks"]))
+    if a == "RechunkNan":
+        if lib == "np":
+            return X()
+        x = X()
+        tgt = []
+        for ch in x.chunks:
+            if any(isinstance(c, float) and math.isnan(c) for c in ch):
+                tgt.append((np.nan,) * {"one": 1, "more": len(ch) + 1, "same": len(ch)}[act["mode"]])
+            else:
+                tgt.append(tuple(ch))
+        return x.rechunk(tuple(tgt))
     if a == "Reduce":
         op = act["op"]
         axes = tuple(b - 1 for b in act["axes"])
@@ -542,8 +553,15 @@ def make_source(da, arr, grid, spec, ctx):
 
     src = arr
     if spec.get("kind", "numpy") != "numpy":
+        view = spec.get("view")
+        if view == "structured":
+            # the same data behind a structured dtype with one field; the program works on the field (C29: metadata of
+            # structured / record sources has to come from the dtype, not from a probe of the data)
+            arr = arr.view([("v", arr.dtype.str)])
         src = iosrc.RecordingSource(arr, grid=grid if spec["kind"] == "rec-grid" else None)
         ctx.setdefault("rec_src", []).append(src)
+        if view == "structured":
+            return da.from_array(src, chunks=grid)["v"]
     wrap = spec.get("wrap", "from_array")
     if wrap == "asarray":
         return da.asarray(src)
